@@ -174,11 +174,11 @@ def _parse_tla_value(s):
 
 
 def _validate_shard(args):
-    workdir, module, path, n, env, timeout = args
+    workdir, module, path, n, env, timeout, cfgname = args
     e = {"TRACE_FILE": path}
     if env:
         e.update(env)
-    r = run_tlc(workdir, module, cfg=os.path.join(workdir, "Empty.cfg"), workers=1, env=e, timeout=timeout, heap="3g")
+    r = run_tlc(workdir, module, cfg=os.path.join(workdir, cfgname or "Empty.cfg"), workers=1, env=e, timeout=timeout, heap="3g")
     bad, done, cert, info = [], None, [], []
     for line in r["out"].splitlines():
         m = _RE_PRINT.match(line.strip())
@@ -259,7 +259,8 @@ class Check:
             f.write(text)
 
     # ---------------------------------------------------------------- batch trace validation (code -> spec)
-    def validate(self, module, events, shard=4000, env=None, timeout=3000, label="", keyfn=None, describe=None):
+    def validate(self, module, events, shard=4000, env=None, timeout=3000, label="", keyfn=None, describe=None,
+                 cfg=None):
         """events: list of JSON-able arrays.  Returns list of (event, clause).  Violations are registered."""
         if not events:
             return []
@@ -274,7 +275,7 @@ class Check:
                 for ev in chunk:
                     f.write(json.dumps(ev, separators=(",", ":")))
                     f.write("\n")
-            jobs.append((off, (self.dir, module, path, len(chunk), env, timeout)))
+            jobs.append((off, (self.dir, module, path, len(chunk), env, timeout, cfg)))
         bad_all = []
         certs = []
         with cf.ThreadPoolExecutor(max_workers=NCPU) as ex:
